@@ -25,7 +25,9 @@ type Facts struct {
 
 	addrTaken map[*ssa.Function]bool
 
-	debugFuncs map[*ssa.Function]string
+	debugFuncs   map[*ssa.Function]string
+	debugWritten int // 0 unknown, 1 never written, 2 written
+	neverFail    map[*ssa.Function]bool
 
 	MayLoad  map[*ssa.Function]bool // may reach Persist.Load
 	MayStore map[*ssa.Function]bool // may reach Persist.Store
@@ -48,10 +50,91 @@ func NewFacts(P *ir.Program) *Facts {
 		MayStore:  map[*ssa.Function]bool{},
 		MayFail:   map[*ssa.Function]bool{},
 	}
+	ir.ResetDeadMemo()
+	ir.DeadHook = F.deadBlock
 	F.resolveCalls()
 	F.effects()
 	currentFacts = F
 	return F
+}
+
+// deadBlock: b cannot execute — it is dominated by `Mast.debug == true` (a private field nothing outside the package's
+// tests sets), or by `err != nil` for the error of a static callee every one of whose returns yields a nil error
+// (savePathForRoot): the caller's error branch for such a callee is unreachable.
+func (F *Facts) deadBlock(b *ssa.BasicBlock) bool {
+	if F.debugWritten == 0 {
+		F.debugWritten = 1
+		for _, g := range F.P.Funcs {
+			for _, bb := range g.Blocks {
+				for _, ins := range bb.Instrs {
+					if _, f, _, ok := mastFieldStore(ins); ok && f == "debug" {
+						F.debugWritten = 2
+					}
+				}
+			}
+		}
+	}
+	for _, f := range ir.FactsAt(b) {
+		if F.debugWritten == 1 && mastFieldLoad(f.Cond, "debug") && f.Truth {
+			return true
+		}
+		tv, tnn, isNil := ir.NilTest(f.Cond)
+		if !isNil || f.Truth != tnn || !ir.IsErrorType(tv.Type()) {
+			continue
+		}
+		// tv non-nil: is it the error result of a callee that never fails?
+		var call *ssa.Call
+		switch x := ir.ResolveCell(tv).(type) {
+		case *ssa.Call:
+			call = x
+		case *ssa.Extract:
+			call, _ = x.Tuple.(*ssa.Call)
+		}
+		if call == nil {
+			continue
+		}
+		callee := ir.Callee(call.Call)
+		if callee == nil || callee.Blocks == nil || !isOwn(F.P, callee) {
+			continue
+		}
+		if F.neverFails(callee, 0) {
+			return true
+		}
+	}
+	return false
+}
+
+// neverFails: every return of fn yields a nil error (directly, or the error of another function that never fails).
+func (F *Facts) neverFails(fn *ssa.Function, depth int) bool {
+	if v, ok := F.neverFail[fn]; ok {
+		return v
+	}
+	if F.neverFail == nil {
+		F.neverFail = map[*ssa.Function]bool{}
+	}
+	F.neverFail[fn] = false
+	ei := ir.ErrorResultIndex(fn.Signature)
+	if ei < 0 || depth > 2 {
+		return false
+	}
+	ok := true
+	n := 0
+	for _, b := range fn.Blocks {
+		if len(b.Instrs) == 0 {
+			continue
+		}
+		r, isRet := b.Instrs[len(b.Instrs)-1].(*ssa.Return)
+		if !isRet || (len(b.Preds) == 0 && b.Index != 0) {
+			continue
+		}
+		n++
+		if !ir.IsNilConst(ir.ResolveCell(r.Results[ei])) {
+			ok = false
+		}
+	}
+	ok = ok && n > 0
+	F.neverFail[fn] = ok
+	return ok
 }
 
 // currentFacts is the fact base of the configuration being analysed (rules run sequentially).
@@ -209,6 +292,9 @@ func (F *Facts) External(ci ssa.CallInstruction) string { return F.external[ci] 
 func CallsOf(fn *ssa.Function) []ssa.CallInstruction {
 	var out []ssa.CallInstruction
 	for _, b := range fn.Blocks {
+		if ir.IsDead(b) {
+			continue
+		}
 		for _, ins := range b.Instrs {
 			if ci, ok := ins.(ssa.CallInstruction); ok {
 				out = append(out, ci)
